@@ -75,19 +75,21 @@ Section Push.
     | _ => KEEP_ALWAYS
     end.
 
-  (* IntervalEvaluator::push keep function, from per-slot bounds (the may-be-NaN
-     flags are not consulted by the code) *)
-  Definition keep_interval (lo hi : list num) (c : clause) : keep :=
+  (* IntervalEvaluator::push keep function, from per-slot bounds and may-be-NaN flags *)
+  Definition keep_interval (lo hi : list num) (maybe_nan : list bool) (c : clause) : keep :=
     let alo := nth (c_a c) lo (o_zero O) in let ahi := nth (c_a c) hi (o_zero O) in
     let blo := nth (c_b c) lo (o_zero O) in let bhi := nth (c_b c) hi (o_zero O) in
+    let unsafe := nth (c_a c) maybe_nan false || nth (c_b c) maybe_nan false in
     match c_op c with
     | OP_MAX =>
         if Nat.eqb (c_a c) (c_b c) then KEEP_A
+        else if unsafe then KEEP_BOTH
         else if o_ltb O bhi alo then KEEP_A
         else if o_ltb O ahi blo then KEEP_B
         else KEEP_BOTH
     | OP_MIN =>
         if Nat.eqb (c_a c) (c_b c) then KEEP_A
+        else if unsafe then KEEP_BOTH
         else if o_ltb O bhi alo then KEEP_B
         else if o_ltb O ahi blo then KEEP_A
         else KEEP_BOTH
